@@ -91,6 +91,19 @@ NULL_NS_CORPUS = [
         {"name": "f", "type": {"type": "enum", "name": "Color", "namespace": "", "symbols": ["RED"]}},
         {"name": "g", "type": {"type": "record", "name": "Sub", "namespace": "", "fields": [{"name": "c", "type": "Color"}]}}]},
      "Color", "Sub", "null"],
+    # b.X and a.b.X both defined; inside namespace a the dotted reference "b.X" denotes b.X, "X" inside a.b denotes a.b.X
+    {"type": "record", "name": "a.R", "fields": [
+        {"name": "x", "type": {"type": "enum", "name": "b.X", "symbols": ["P"]}},
+        {"name": "y", "type": {"type": "enum", "name": "X", "namespace": "a.b", "symbols": ["Q", "R"]}},
+        {"name": "z", "type": "b.X", "default": "P"},
+        {"name": "w", "type": ["null", "a.b.X"]},
+        {"name": "s", "type": {"type": "record", "name": "a.b.S", "fields": [{"name": "x", "type": "X"}, {"name": "bx", "type": "b.X"}]}}]},
+    # the same simple name in the null namespace and in a namespace: "X" inside a denotes a.X
+    {"type": "record", "name": "X", "fields": [
+        {"name": "y", "type": {"type": "record", "name": "a.Y", "fields": [
+            {"name": "e", "type": {"type": "enum", "name": "X", "symbols": ["P", "Q"]}},
+            {"name": "r", "type": "X", "default": "Q"}]}},
+        {"name": "self", "type": ["null", "X"]}]},
     {"type": "array", "items": {"type": "record", "name": "n.T", "fields": [
         {"name": "x", "type": {"type": "fixed", "name": "T", "namespace": "", "size": 1}},
         {"name": "y", "type": ["null", "n.T"]},
@@ -168,6 +181,16 @@ class Gen:
                 # the same simple name in several namespaces (incl. the null one): only the full names differ
                 short = r.choice(list(self.defined)).rsplit(".", 1)[-1]
                 self.note("name:simple-name-reused")
+            dotted = [d for d in self.defined if "." in d]
+            if ns and dotted and r.random() < 0.12:
+                # b.X exists: also define <ns>.b.X, so that the dotted reference "b.X" made inside <ns> could be
+                # (wrongly) read relative to the enclosing namespace
+                f0 = r.choice(dotted)
+                sp0, short0 = f0.rsplit(".", 1)
+                attrs = {"name": short0, "namespace": ns + "." + sp0} if r.random() < 0.5 else {"name": ns + "." + f0}
+                if ns + "." + f0 not in self.defined:
+                    self.note("name:dotted-clash-with-relative-reading")
+                    return attrs, ns + "." + sp0, ns + "." + f0
             k = r.random()
             if ns and r.random() < 0.22:
                 k = 0.8 + 0.2 * r.random()          # inside a namespace: more often an explicit "" / null namespace
@@ -223,6 +246,11 @@ class Gen:
         k = r.choice(choices)
         if k == "ref":
             full = r.choice(list(self.defined))
+            amb = [d for d in self.defined if "." in d and ns and (ns + "." + d) in self.defined]
+            if amb and r.random() < 0.6:
+                full = r.choice(amb)                  # a dotted name that ALSO exists relative to the enclosing namespace
+                self.note("ref:dotted-also-relative")
+                return full
             nulls = [d for d in self.defined if "." not in d]
             if ns == "" and nulls and r.random() < 0.5:
                 full = r.choice(nulls)                # from a null-namespace context: prefer the null-namespace types
